@@ -20,4 +20,8 @@ mkdir -p .build/runner
 cp /repo/go.sum harness/go.sum
 (cd harness && go build -tags verif -o ../.build/harness .)
 .build/harness tables -out .build/tables
+# C17: static footprint analysis and the concurrent workload (the package as it ships, with and without -race)
+(cd footprint && go build -o ../.build/footprint .)
+cp /repo/go.sum race/go.sum
+(cd race && CGO_ENABLED=1 go build -race -o ../.build/race_on . && go build -o ../.build/race_off .)
 echo "setup ok"
